@@ -48,6 +48,8 @@ def check(rep, an, tier):
         res = an.run(f"{CC.CONVEX}:in_hull_from_A", kws=kw, spec=spec, config=cfgname(cfg))
         entry = "in_hull_from_A"
         CC.vertex_set(rep, res, entry)
+        CC.corner_subset(rep, res, entry)
+        CC.no_projected_decision(rep, res, entry)
         n = CC.membership_frames(rep, res, entry)
         if n == 0:
             rep.undecided("R-QTY", "membership operands share a frame", entry=entry, config=res.config, construct="in_hull(P_, B_)")
@@ -81,6 +83,7 @@ def check(rep, an, tier):
             for res in ress:
                 ent = f"ReceptorEstimator.in_hull[normalized={normalized},F={Fax}]"
                 CC.membership_frames(rep, res, ent)
+                CC.corner_subset(rep, res, ent)
                 CC.dim1(rep, res, ent)
                 R.rule_purity(rep, res, ent)
                 F.qty(rep, res, ent, allow=allow, subs=("mismatch", "literal"))
